@@ -13,7 +13,7 @@ fn val(map: usize, v: i64) -> String {
     let pool: [&str; 6] = match map {
         0 => ["one", "two\nthree", "", "\nfoo\nbar", "x: y # z  ", "é日\n:colon\n-dash"],
         1 => ["#hash", "a\nb\nc", "", "\n日本", "tab\there \t", "1\n.\n:2 # x"],
-        _ => ["😀", "k: v\nk2: v2", "", "\nx", "trailing   ", "a\n-\n~"],
+        _ => ["😀", "k: v  \nk2: v2\t\nlast", "", "\nx", "trailing   ", "a\n-\n~"],   // (value 2: trailing blanks on the inner lines of a multi-line value)
     };
     pool[(v as usize - 1) % 6].to_string()
 }
